@@ -99,18 +99,23 @@ CAcqCreate(c) ==     \* with _LOOP_LOCKS_CREATE_LOCK:
 
 CLookup2(c) ==       \* try: return _LOOP_LOCKS[key]  (another thread may have created it meanwhile)
     /\ pc[c] = "lookup2"
-    /\ IF lockOf # 0 THEN myLock' = [myLock EXCEPT ![c] = lockOf] /\ createLock' = None /\ Goto(c, "acq_loop")
-       ELSE UNCHANGED <<myLock, createLock>> /\ Goto(c, "create")
-    /\ UNCHANGED <<running, closed, pending, lockOf, nlocks, holder, lit, litpc, stopReq, evaluated, error>>
+    /\ IF lockOf # 0 THEN myLock' = [myLock EXCEPT ![c] = lockOf] /\ Goto(c, "rel_create")
+       ELSE UNCHANGED myLock /\ Goto(c, "create")
+    /\ UNCHANGED <<running, closed, pending, lockOf, nlocks, holder, createLock, lit, litpc, stopReq, evaluated, error>>
 
 CCreate(c) ==        \* lock = _LOOP_LOCKS[key] = Lock()
     /\ pc[c] = "create"
     /\ nlocks' = nlocks + 1
     /\ lockOf' = nlocks + 1
     /\ myLock' = [myLock EXCEPT ![c] = nlocks + 1]
+    /\ Goto(c, "rel_create")
+    /\ UNCHANGED <<running, closed, pending, holder, createLock, lit, litpc, stopReq, evaluated, error>>
+
+CRelCreate(c) ==     \* return from inside `with _LOOP_LOCKS_CREATE_LOCK`: the creation lock is released
+    /\ pc[c] = "rel_create"
     /\ createLock' = None
     /\ Goto(c, "acq_loop")
-    /\ UNCHANGED <<running, closed, pending, holder, lit, litpc, stopReq, evaluated, error>>
+    /\ UNCHANGED <<running, closed, pending, lockOf, nlocks, myLock, holder, lit, litpc, stopReq, evaluated, error>>
 
 CAcqLoop(c) ==       \* with <loop lock>:
     /\ pc[c] = "acq_loop" /\ holder[myLock[c]] = None
@@ -185,11 +190,16 @@ LitStopCall ==       \* stop(): loop.call_soon_threadsafe(loop.stop); future.res
     /\ lit' = "stopping" /\ stopReq' = TRUE
     /\ UNCHANGED <<pc, running, closed, pending, lockOf, nlocks, myLock, holder, createLock, litpc, evaluated, error>>
 
-LitStops ==          \* run_forever returns, the lock is released, the pool future completes
+LitStops ==          \* run_forever returns (the loop's lock is still held)
     /\ litpc = "running" /\ stopReq /\ pending = {}
-    /\ running' = None /\ litpc' = "done"
+    /\ running' = None /\ litpc' = "rel"
+    /\ UNCHANGED <<pc, closed, pending, lockOf, nlocks, myLock, holder, createLock, lit, stopReq, evaluated, error>>
+
+LitRel ==            \* the `with` block ends: the lock is released, the pool future completes
+    /\ litpc = "rel"
     /\ holder' = [holder EXCEPT ![myLock["LIT"]] = None]
-    /\ UNCHANGED <<pc, closed, pending, lockOf, nlocks, myLock, createLock, lit, stopReq, evaluated, error>>
+    /\ litpc' = "done"
+    /\ UNCHANGED <<pc, running, closed, pending, lockOf, nlocks, myLock, createLock, lit, stopReq, evaluated, error>>
 
 LitStopReturn ==
     /\ lit = "stopping" /\ litpc = "done"
@@ -201,8 +211,8 @@ LitStopReturn ==
 Stranded == \E c \in Callers : pc[c] = "ts_wait" /\ c \in pending /\ running = None
                                /\ \A d \in Callers : pc[d] \in {"done", "ts_wait"}
 CallerStep(c) == \/ CheckRunning(c) \/ TsSubmit(c) \/ CheckClosed(c) \/ CLookup1(c) \/ CAcqCreate(c) \/ CLookup2(c)
-                 \/ CCreate(c) \/ CAcqLoop(c) \/ CRun(c) \/ CRunOther(c) \/ CRunDone(c) \/ CRelLoop(c)
-LitStep == LitSubmit \/ LitLookup \/ LitAcq \/ LitRun \/ LitReturn \/ LitServe \/ LitStopCall \/ LitStops \/ LitStopReturn
+                 \/ CCreate(c) \/ CRelCreate(c) \/ CAcqLoop(c) \/ CRun(c) \/ CRunOther(c) \/ CRunDone(c) \/ CRelLoop(c)
+LitStep == LitSubmit \/ LitLookup \/ LitAcq \/ LitRun \/ LitReturn \/ LitServe \/ LitStopCall \/ LitStops \/ LitRel \/ LitStopReturn
 AllDone == (\A c \in Callers : pc[c] = "done") /\ lit \in {"off", "stopped"}
 Finish == AllDone /\ UNCHANGED vars
 Next == (\E c \in Callers : CallerStep(c)) \/ LitStep \/ Finish \/ (D7Stutter /\ Stranded /\ UNCHANGED vars)
